@@ -92,6 +92,14 @@ func stateCell(p *core.Prog) (core.FDCell, *types.Var, *ssa.Function) {
 			return false
 		},
 		IsStore: func(in ssa.Instruction) (ssa.Value, bool) {
+			// a call of a setter (a helper that stores its argument into the field on every path,
+			// e.g. under the lock) is a store of that argument
+			if call, ok := in.(*ssa.Call); ok {
+				if k, isSetter := fieldSetter(call.Call.StaticCallee(), f); isSetter && k < len(call.Call.Args) {
+					return call.Call.Args[k], true
+				}
+				return nil, false
+			}
 			st, ok := in.(*ssa.Store)
 			if !ok {
 				return nil, false
@@ -103,6 +111,60 @@ func stateCell(p *core.Prog) (core.FDCell, *types.Var, *ssa.Function) {
 			return st.Val, true
 		},
 	}, f, stateGetter
+}
+
+var fieldSetterMemo = map[*ssa.Function]map[*types.Var]int{}
+
+// fieldSetter: h stores its parameter k into field f (of its receiver) on every path to a return,
+// and stores nothing else there. Returns k.
+func fieldSetter(h *ssa.Function, f *types.Var) (int, bool) {
+	if h == nil || h.Blocks == nil || f == nil || h.Signature.Recv() == nil {
+		return 0, false
+	}
+	if m, ok := fieldSetterMemo[h]; ok {
+		if k, ok := m[f]; ok {
+			return k, k >= 0
+		}
+	} else {
+		fieldSetterMemo[h] = map[*types.Var]int{}
+	}
+	k := -1
+	ok := true
+	isStore := func(in ssa.Instruction) bool {
+		st, isSt := in.(*ssa.Store)
+		if !isSt {
+			return false
+		}
+		fa, isFA := st.Addr.(*ssa.FieldAddr)
+		return isFA && core.FieldOfAddr(fa) == f && fa.X == ssa.Value(h.Params[0])
+	}
+	for _, b := range h.Blocks {
+		for _, in := range b.Instrs {
+			if !isStore(in) {
+				continue
+			}
+			idx := -1
+			for i, prm := range h.Params {
+				if in.(*ssa.Store).Val == ssa.Value(prm) {
+					idx = i
+				}
+			}
+			if idx <= 0 || (k >= 0 && k != idx) {
+				ok = false
+			}
+			k = idx
+		}
+	}
+	if k <= 0 || !ok {
+		fieldSetterMemo[h][f] = -1
+		return 0, false
+	}
+	if skip, _, _ := core.PathAvoiding(h, nil, core.IsReturn, isStore); skip {
+		fieldSetterMemo[h][f] = -1
+		return 0, false
+	}
+	fieldSetterMemo[h][f] = k
+	return k, true
 }
 
 func methodCell(p *core.Prog) core.FDCell {
@@ -385,7 +447,8 @@ func c02StateWriters(c *Ctx) {
 		for root.Parent() != nil {
 			root = root.Parent()
 		}
-		if root != h {
+		// (or an unexported helper that only handleRequestInner calls: a setter taking the lock)
+		if root != h && !(!token.IsExported(root.Name()) && callersWithin(p, root, []*ssa.Function{h}, 1)) {
 			bad++
 			r.Fail("C02/STATE-WRITERS", fnShort(acc.Fn)+" writes ServerSession.state", p.Pos(acc.Instr.Pos()), "only handleRequestInner (the session goroutine) may write the state")
 			continue
@@ -493,6 +556,28 @@ func c02NonNilResponse(c *Ctx) {
 		set[fn] = true
 	}
 	var nonNil func(v ssa.Value, fn *ssa.Function, seen map[ssa.Value]bool) (bool, string)
+	// useBlock: the block of the return being decided (for results of helpers that are non-nil only
+	// together with their error)
+	var useBlock *ssa.BasicBlock
+	// nonNilWithErr: helper cal returns a non-nil response (result idx) on every return whose error
+	// (last result) is not the nil constant
+	nonNilWithErr := func(cal *ssa.Function, idx int) bool {
+		res := cal.Signature.Results()
+		if cal.Blocks == nil || res.Len() < 2 || !isErrorType(res.At(res.Len()-1).Type()) || idx >= res.Len()-1 {
+			return false
+		}
+		n := 0
+		for _, ret := range core.Returns(cal) {
+			if isNilConst(ret.Results[len(ret.Results)-1]) {
+				continue
+			}
+			n++
+			if ok, _ := nonNil(ret.Results[idx], cal, map[ssa.Value]bool{}); !ok {
+				return false
+			}
+		}
+		return n > 0
+	}
 	nonNil = func(v ssa.Value, fn *ssa.Function, seen map[ssa.Value]bool) (bool, string) {
 		if seen[v] {
 			return true, "cycle"
@@ -515,6 +600,19 @@ func c02NonNilResponse(c *Ctx) {
 			}
 			if cal := call.Call.StaticCallee(); cal != nil && set[cal] && x.Index == 0 {
 				return true, "result of " + fnShort(cal)
+			}
+			// a helper that hands out a response together with its error, used on the err != nil edge
+			if cal := call.Call.StaticCallee(); cal != nil && useBlock != nil && x.Block().Parent() == useBlock.Parent() && nonNilWithErr(cal, x.Index) {
+				ei := cal.Signature.Results().Len() - 1
+				for _, cd := range core.Conds(useBlock) {
+					bo, ok := cd.V.(*ssa.BinOp)
+					if !ok || !isNilConst(bo.Y) || (bo.Op != token.NEQ && bo.Op != token.EQL) {
+						continue
+					}
+					if ex, ok := bo.X.(*ssa.Extract); ok && ex.Tuple == x.Tuple && ex.Index == ei && (bo.Op == token.NEQ) == cd.Pol {
+						return true, "response of " + fnShort(cal) + ", non-nil whenever its error is, used where the error is non-nil"
+					}
+				}
 			}
 			return false, "result of " + core.CalleeObjName(call)
 		case *ssa.Phi:
@@ -563,7 +661,9 @@ func c02NonNilResponse(c *Ctx) {
 	sort.Slice(fns, func(i, j int) bool { return fns[i].Name()+fns[i].String() < fns[j].Name()+fns[j].String() })
 	for _, fn := range fns {
 		for i, ret := range core.Returns(fn) {
+			useBlock = ret.Block()
 			ok, why := nonNil(ret.Results[0], fn, map[ssa.Value]bool{})
+			useBlock = nil
 			r.Check(ok, "C02/NON-NIL-RESPONSE", fmt.Sprintf("%s return#%d", fnShort(fn), i+1), p.Pos(ret.Pos()), why, "the returned *Response may be nil ("+why+"): handleRequestOuter dereferences it")
 		}
 	}
